@@ -1715,6 +1715,7 @@ def floor_plans(base_seed, tier='quick'):
     plans += option_floor_plans(base_seed, tier)
     plans += order_floor_plans(base_seed, tier)
     plans += minimal_floor_plans(base_seed, tier)
+    plans += mixed_floor_plans(base_seed, tier)
     return plans
 
 
@@ -2696,4 +2697,63 @@ def minimal_floor_plans(base_seed, tier='quick'):
         plans.append(dict(version=1, run_seed=seed, tier=tier, floor=True, config='plain',
                           hist=env_side(rng, False, 'hist'), orac=env_side(rng, False, 'orac'),
                           disk={}, tasks=[t, c], schedule=[0] * len(ops) + [1] * len(cops)))
+    return plans
+
+
+# ------------------------------------------------- mixed and fine-sweep floor
+
+def mixed_floor_plans(base_seed, tier='quick'):
+    """(a) A printing main() run with a non-default selection of report
+    sections, then reports with default options on another, live model in
+    the same interpreter (and the other way round).  (b) Sweeps of 4..8 steps
+    with increments that are not binary fractions (0.1, 0.3, 0.7), with the
+    default far-field grid, which contains directions where one polarisation
+    cancels to rounding noise: step k must be computed at f0 + k * inc, and
+    the noise-level numbers of the report show the last bit of it."""
+    plans = []
+    for i, sel in enumerate([['none'], ['near-field'], ['far-field-absolute'], ['far-field', 'near-field'],
+                             ['far-field-absolute', 'near-field'], ['none']]):
+        seed = base_seed * 1000003 + 999950 + i
+        rng = random.Random(seed)
+        env = ['free', 'ideal', 'real2'][i % 3]
+        m1 = gen_model(rng, env=env, kinds=[])
+        m2 = gen_model(rng, env=['ideal', 'free', 'free'][i % 3], kinds=rng.choice([[], ['impedance']]))
+        pool, probes = gen_pool(rng, m2, k=2)
+        p1, _ = gen_pool(rng, m1, k=2)
+        argv = ['-f', repr(p1[0])] + m1.argv() + field_args(rng, m1, force=sel) + ['--output-cmdline', 'mix.txt']
+        cops = [['RUN', argv], ['RUN', argv]]
+        aops = [['COMPUTE'], ['FAR', 0], ['OBS_MISC', i], ['OBS_REPORT', ['far-field']], ['SET_F', 1], ['COMPUTE'],
+                ['FAR', 0], ['OBS_MISC', i + 1]]
+        c = dict(kind='cli', ops=[_copy_op(o) for o in cops], template=m1.template, env=m1.env,
+                 features=sorted(set(m1.features + ['mixed_floor'])), probes=[], npulses=m1.min_pulses() + 2 * len(m1.geo),
+                 pool=list(p1))
+        t = dict(kind='api', builder='cli', argv=m2.argv(), pool=pool[:2], fars=[gen_far(rng)], nears=[],
+                 ops=aops, template=m2.template, env=m2.env, features=sorted(set(m2.features + ['mixed_floor'])),
+                 probes=probes, npulses=m2.min_pulses() + 2 * len(m2.geo))
+        if i % 2 == 0:
+            sched = [0, 1, 1, 1, 1, 0, 1, 1, 1, 1]          # run first, then the live model (and once more in between)
+        else:
+            sched = [1, 1, 1, 0, 1, 0, 1, 1, 1, 1]          # live model first, the run in the middle
+        plans.append(dict(version=1, run_seed=seed, tier=tier, floor=True, config='plain',
+                          hist=env_side(rng, False, 'hist'), orac=env_side(rng, False, 'orac'),
+                          disk={}, tasks=[c, t], schedule=sched))
+    sweeps = [(7.1, 0.1, 6), (14.05, 0.3, 5), (28.3, 0.7, 4), (7.3, 0.1, 8), (21.1, 0.3, 6), (3.7, 0.1, 7),
+              (10.1, 0.7, 5), (50.3, 0.1, 6)]
+    for j, (f0, inc, steps) in enumerate(sweeps):
+        seed = base_seed * 1000003 + 999970 + j
+        rng = random.Random(seed)
+        env = ['free', 'ideal'][j % 2]
+        L = round(150.0 / f0, 3)
+        m = gen_model(rng, env=env, kinds=[[], ['impedance'], ['skin_c']][j % 3], length=L, transforms=False,
+                      template=(['dipole', 'vee', 'two_wires', 'bent3'] if env == 'free'
+                                else ['monopole', 'inv_l', 'tee_gnd', 'two_monopoles'])[(j // 2) % 4])
+        argv = ['-f', repr(f0)] + m.argv() + (['--option', 'far-field', '--option', 'far-field-absolute',
+                                                '--ff-power=100', '--ff-distance=1000'] if j % 2 else [])
+        cops = [['SWEEP', list(argv), inc, steps, j % 4], ['SWEEP', list(argv), -inc, 3, (j + 1) % 4]]
+        c = dict(kind='cli', ops=[_copy_op(o) for o in cops], template=m.template, env=m.env,
+                 features=sorted(set(m.features + ['fine_sweep_floor'])), probes=[],
+                 npulses=m.min_pulses() + 2 * len(m.geo), pool=[f0])
+        plans.append(dict(version=1, run_seed=seed, tier=tier, floor=True, config='plain',
+                          hist=env_side(rng, False, 'hist'), orac=env_side(rng, False, 'orac'),
+                          disk={}, tasks=[c], schedule=[0] * len(cops)))
     return plans
